@@ -27,6 +27,7 @@
 #include <poll.h>
 #include <arpa/inet.h>
 #include <sys/timerfd.h>
+#include <sys/time.h>
 #include <sys/ioctl.h>
 #include "threadpool/threadpool.c"
 #include "threadpool/threadpool_msg_sys.c"
@@ -98,6 +99,7 @@ static void on_signal(int sig) {
 	fprintf(stderr, "FAULT sig=%d\n", sig);
 	_exit((sig == SIGALRM) ? 98 : 99);
 }
+static void on_prof(int sig) { (void)sig; on_signal(SIGALRM); }       /* CPU-time budget used up = hang, like the wall clock alarm */
 static void die(const char *m) { fprintf(stderr, "x05_drv: %s\n", m); exit(3); }
 
 /* ------------------------------------------------------------------ world */
@@ -644,9 +646,15 @@ int main(int argc, char **argv) {
 	if (argc < 3) die("usage: x05_drv <scenario> <trace.ndjson>");
 	g_out_path = argv[2];
 	signal(SIGSEGV, on_signal); signal(SIGBUS, on_signal); signal(SIGALRM, on_signal); signal(SIGABRT, on_signal);
+	signal(SIGPROF, on_prof);
 	signal(SIGPIPE, SIG_IGN);
 	if (__sanitizer_set_death_callback) __sanitizer_set_death_callback(on_death);
-	alarm(60);
+	{	/* watchdog of the whole scenario: a scenario needs < 0.1 s; 5 s of CPU time of the process (a pool thread spinning inside the
+		 * server; robust on a loaded machine) or 60 s of wall clock (a wait that never ends; the driver's own bounded waits give up after 20 s) -> event "hang" ends the trace */
+		struct itimerval it; memset(&it, 0, sizeof(it)); it.it_value.tv_sec = 5;
+		setitimer(ITIMER_PROF, &it, NULL);
+		alarm(60);
+	}
 	FILE *sc = fopen(argv[1], "r");
 	if (!sc) die("cannot open scenario");
 	char line[4096];
